@@ -781,11 +781,14 @@ func (vc *VC) modCall(fn *ssa.Function, c *ssa.CallCommon, out map[string]bool, 
 		case "delete":
 			d, _ := vc.mapSV(c.Args[0].Type().Underlying().(*types.Map))
 			out[d] = true
+		case "close":
+			out["EV|close"] = true
 		}
 		return
 	}
 	var callees []*ssa.Function
 	if c.IsInvoke() {
+		out["EV|invoke."+c.Method.Name()] = true
 		it, _ := c.Value.Type().Underlying().(*types.Interface)
 		if it != nil && vc.eng.inModuleType(c.Value.Type()) {
 			for _, t := range vc.eng.knownTypes() {
@@ -804,9 +807,19 @@ func (vc *VC) modCall(fn *ssa.Function, c *ssa.CallCommon, out map[string]bool, 
 		callees = []*ssa.Function{sc}
 	} else {
 		// dynamic call through a func-typed field with an abstract contract
+		out["EV|dyncall"] = true
+		if mc, ok := c.Value.(*ssa.MakeClosure); ok {
+			if f, ok := mc.Fn.(*ssa.Function); ok {
+				out["EV|"+shortFuncName(f)] = true
+				for k := range vc.modSetFn(f, depth+1) {
+					out[k] = true
+				}
+			}
+		}
 		if u, ok := c.Value.(*ssa.UnOp); ok && u.Op == token.MUL {
 			if structT, field, _, ok := vc.fieldOfAddr(u.X); ok {
 				if n := namedOf(structT); n != nil && n.Obj().Pkg() != nil {
+					out["EV|"+n.Obj().Name()+"."+structT.Underlying().(*types.Struct).Field(field).Name()] = true
 					key := n.Obj().Pkg().Path() + "." + n.Obj().Name() + "." + structT.Underlying().(*types.Struct).Field(field).Name()
 					if ac, ok := vc.eng.contracts.Funcs[key]; ok && ac.Like != "" {
 						out["G_alloc"] = true
@@ -829,6 +842,23 @@ func (vc *VC) modCall(fn *ssa.Function, c *ssa.CallCommon, out map[string]bool, 
 		return
 	}
 	for _, callee := range callees {
+		out["EV|"+shortFuncName(callee)] = true
+		if cc := vc.eng.contracts.lookupFn(callee); cc != nil {
+			for _, e := range cc.Ensures {
+				for _, m := range callsRe.FindAllStringSubmatch(e, -1) {
+					out["EV|"+m[1]] = true
+				}
+				for _, m := range callsumRe.FindAllStringSubmatch(e, -1) {
+					out["EV|"+m[1]] = true
+				}
+			}
+		} else if cc, ok := vc.eng.contracts.External[shortFuncName(callee)]; ok {
+			for _, e := range cc.Ensures {
+				for _, m := range callsRe.FindAllStringSubmatch(e, -1) {
+					out["EV|"+m[1]] = true
+				}
+			}
+		}
 		switch callee.String() {
 		case "(*sync.Mutex).Lock", "(*sync.RWMutex).Lock", "(*sync.RWMutex).RLock", "(*sync.Cond).Wait":
 			if callee.String() != "(*sync.Cond).Wait" {
